@@ -361,42 +361,57 @@ func NewGraph(metaData *MetaData, build *BuildDirective, varPool *VarPool) (*Gra
 		}
 	}
 
-	// Second pass: Expand struct providers into synthetic field accessor providers
-	for _, structProvider := range structProviders {
-		if structProvider.StructType == nil {
-			return nil, fmt.Errorf("struct provider has nil StructType")
-		}
+	// Second pass: Expand struct providers into synthetic field accessor providers.
+	// A struct can itself be a field of another expanded struct whose Struct provider is
+	// declared later, so an expansion whose struct type has no provider yet is retried
+	// after the others, until a round makes no progress.
+	pendingStructs := structProviders
+	for len(pendingStructs) > 0 {
+		var deferred []*ProviderSpec
 
-		// Find the provider that provides this struct type
-		structTypeKey := structProvider.StructType.String()
-		if _, ok := fnProviderMap[structTypeKey]; !ok {
-			return nil, fmt.Errorf("no provider for struct type %s", structTypeKey)
-		}
-
-		// Create synthetic field accessor providers for each exported field
-		for _, field := range structProvider.StructFields {
-			fieldProvider := &ProviderSpec{
-				Type:        ProviderTypeFieldAccess,
-				SourceField: field,
-				StructType:  structProvider.StructType,
-				Provides:    [][]types.Type{{field.Type}},
-				Requires:    []types.Type{structProvider.StructType},
-				DeclOrder:   declOrder,
-			}
-			declOrder++
-
-			fieldTypeKey := field.Type.String()
-			if _, ok := fnProviderMap[fieldTypeKey]; ok {
-				return nil, fmt.Errorf("multiple providers provide %s (field %s conflicts with existing provider)", fieldTypeKey, field.Name)
+		for _, structProvider := range pendingStructs {
+			if structProvider.StructType == nil {
+				return nil, fmt.Errorf("struct provider has nil StructType")
 			}
 
-			fnProviderMap[fieldTypeKey] = &fnProvider{
-				provider:    fieldProvider,
-				returnIndex: 0,
+			// Find the provider that provides this struct type
+			structTypeKey := structProvider.StructType.String()
+			if _, ok := fnProviderMap[structTypeKey]; !ok {
+				deferred = append(deferred, structProvider)
+				continue
 			}
-			// Add to build.Providers so it's included in graph processing
-			build.Providers = append(build.Providers, fieldProvider)
+
+			// Create synthetic field accessor providers for each exported field
+			for _, field := range structProvider.StructFields {
+				fieldProvider := &ProviderSpec{
+					Type:        ProviderTypeFieldAccess,
+					SourceField: field,
+					StructType:  structProvider.StructType,
+					Provides:    [][]types.Type{{field.Type}},
+					Requires:    []types.Type{structProvider.StructType},
+					DeclOrder:   declOrder,
+				}
+				declOrder++
+
+				fieldTypeKey := field.Type.String()
+				if _, ok := fnProviderMap[fieldTypeKey]; ok {
+					return nil, fmt.Errorf("multiple providers provide %s (field %s conflicts with existing provider)", fieldTypeKey, field.Name)
+				}
+
+				fnProviderMap[fieldTypeKey] = &fnProvider{
+					provider:    fieldProvider,
+					returnIndex: 0,
+				}
+				// Add to build.Providers so it's included in graph processing
+				build.Providers = append(build.Providers, fieldProvider)
+			}
 		}
+
+		if len(deferred) == len(pendingStructs) {
+			return nil, fmt.Errorf("no provider for struct type %s", deferred[0].StructType.String())
+		}
+
+		pendingStructs = deferred
 	}
 
 	if build.Return.Type == nil {
